@@ -203,13 +203,46 @@ def check(run, M, tier):
                 env[loop.target.id] = T.sym("t", real=True)
             louts = [o for o in SimVN(M, f, real=real).run(loop.body, State(env)) if o.status == "live"]
             okr = bool(louts)
+            n_good = 0
             for lo in louts:
-                r0 = SimVN(M, f, real=real).ev(rets[0].value.elts[0], State(lo.env))
-                r1 = SimVN(M, f, real=real).ev(rets[0].value.elts[1], State(lo.env))
                 s0, s1 = lo.env.get(names[0]), lo.env.get(names[1])
-                good = isinstance(r0, T.Poly) and isinstance(r1, T.Poly) and isinstance(s0, T.Poly) and isinstance(s1, T.Poly) and T.eq(r0, s0) \
-                    and (T.eq(r1, s1) or T.eq(r1, T.neg(T.conj(s1))))
-                okr = okr and good
+                # (i) the reported pair is assigned inside the time loop (or is the state itself)
+                r0_ = SimVN(M, f, real=real).ev(rets[0].value.elts[0], State(lo.env))
+                r1_ = SimVN(M, f, real=real).ev(rets[0].value.elts[1], State(lo.env))
+                if isinstance(r0_, T.Poly) and isinstance(r1_, T.Poly) and isinstance(s0, T.Poly) and isinstance(s1, T.Poly) and T.eq(r0_, s0) \
+                        and (T.eq(r1_, s1) or T.eq(r1_, T.neg(T.conj(s1)))):
+                    if not any(isinstance(s_, ast.Assign) and any(isinstance(x_, ast.Name) and x_.id in (unparse(rets[0].value.elts[0]), unparse(rets[0].value.elts[1]))
+                                                                   for t_ in s_.targets for x_ in ast.walk(t_)) and not (set(names) & {unparse(rets[0].value.elts[0]), unparse(rets[0].value.elts[1])})
+                               for p_ in post for s_ in ast.walk(p_)):
+                        n_good += 1
+                        continue
+                # (ii) statements after the loop that only *report* the state (e.g. `if Nt > 0: a = statea; b = -conj(stateb)`) are followed
+                # with the post-iteration state frozen as symbols, so that the returned names can be read off
+                env2 = dict(lo.env)
+                env2[names[0]], env2[names[1]] = T.sym("S0__"), T.sym("S1__")
+                finals = [o for o in SimVN(M, f, real=real).run([s_ for s_ in post if not isinstance(s_, ast.Return)], State(env2, list(lo.conds))) if o.status == "live"]
+                for fo in finals:
+                    r0 = SimVN(M, f, real=real).ev(rets[0].value.elts[0], State(fo.env))
+                    r1 = SimVN(M, f, real=real).ev(rets[0].value.elts[1], State(fo.env))
+                    if not (isinstance(r0, T.Poly) and isinstance(r1, T.Poly)):
+                        okr = False
+                        continue
+                    syms = T.symbols(r0) | T.symbols(r1)
+                    if not ({"S0__", "S1__"} & syms):
+                        continue   # a path on which the reported pair is still its initial value (no time step was simulated)
+                    co0 = T.linear_coeffs(r0, ["S0__", "S1__"])
+                    lin0 = co0 is not None and co0[1].is_zero() and co0[0]["S1__"].is_zero() and not co0[0]["S0__"].is_zero()
+                    r1c = r1 if "S1__" in {a_[1] for m_ in r1.t for a_, _ in m_ if a_[0] == "sym" and not a_[3]} else T.conj(r1)
+                    co1 = T.linear_coeffs(r1c, ["S0__", "S1__"])
+                    lin1 = co1 is not None and co1[1].is_zero() and co1[0]["S0__"].is_zero() and not co1[0]["S1__"].is_zero()
+                    # each reported entry is its own state variable times a unit-modulus factor (a phase or a sign, possibly conjugated)
+                    unit0 = lin0 and T.eq(T.absq(co0[0]["S0__"]), T.const(1))
+                    unit1 = lin1 and T.eq(T.absq(co1[0]["S1__"]), T.const(1))
+                    if unit0 and unit1:
+                        n_good += 1
+                    else:
+                        okr = False
+            okr = okr and n_good >= 1
         run.check(okr, "Q2", q.split(".")[-1] + " return", f.loc(), "returns the state pair (alpha, beta) or (alpha, -conj(beta))",
                   "%s returns `%s`, whose first two entries are not the simulated Cayley-Klein pair (%s, %s)" % (q, shown, names[0], names[1]), stmt="Q2:ret:" + q)
     run.floor("Q1", 6, n_sites, "state-update sites")
@@ -218,14 +251,41 @@ def check(run, M, tier):
     loop = [s for s in f.body if isinstance(s, ast.For)]
     if len(loop) != 1:
         raise Unrecognised("ab2rf has %d loops" % len(loop), f.node)
-    inner = [s for s in loop[0].body if isinstance(s, ast.If)]
-    stm = [s for s in loop[0].body if not isinstance(s, ast.If)] + (inner[0].body if inner else [])
-    # roles: the polynomial pair = the two parameters; the step index = the loop variable; the output = the returned array
+    # roles: the polynomial pair = the two vectors that are read at the step index and rewritten inside the loop (the parameters, or
+    # locals bound from them before the loop); the step index = the loop variable; the output = the returned array
     if len(f.params) != 2 or not isinstance(loop[0].target, ast.Name):
         raise Unrecognised("ab2rf signature / loop shape changed", f.node)
-    pa, pb = f.params
     lv = loop[0].target.id
     retn = [unparse(n.value) for n in ast.walk(f.node) if isinstance(n, ast.Return) and n.value is not None]
+    read_at_step = []
+    for n in ast.walk(loop[0]):
+        if isinstance(n, ast.Subscript) and isinstance(n.value, ast.Name) and unparse(n.slice) == lv and isinstance(n.ctx, ast.Load) and n.value.id not in read_at_step:
+            read_at_step.append(n.value.id)
+    written = set()
+    for n in ast.walk(loop[0]):
+        if isinstance(n, ast.Assign):
+            for t in n.targets:
+                for x in ast.walk(t):
+                    if isinstance(x, ast.Name) and isinstance(x.ctx, ast.Store):
+                        written.add(x.id)
+    pair = [n for n in read_at_step if n in written]
+    if len(pair) != 2:
+        raise Unrecognised("ab2rf: expected two coefficient vectors read at the step index and rewritten in the loop, found %s" % pair, loop[0])
+    # which of the two is alpha: the one that descends from the first parameter
+    origin = {}
+    for nm in pair:
+        if nm in f.params:
+            origin[nm] = f.params.index(nm)
+        else:
+            for n in ast.walk(f.node):
+                if isinstance(n, ast.Assign) and len(n.targets) == 1 and isinstance(n.targets[0], ast.Name) and n.targets[0].id == nm and n.lineno < loop[0].lineno:
+                    used = [x.id for x in ast.walk(n.value) if isinstance(x, ast.Name) and x.id in f.params]
+                    if used:
+                        origin[nm] = f.params.index(used[0])
+    if sorted(origin.values()) != [0, 1]:
+        raise Unrecognised("ab2rf: cannot tell which coefficient vector is alpha and which is beta (%s)" % origin, loop[0])
+    pa, pb = sorted(pair, key=lambda n_: origin[n_])
+    stm = list(loop[0].body)
     env = {pa: T.sym("a"), pb: T.sym("b"), lv: T.sym("ii", real=True)}
 
     class PeelVN(SimVN):
@@ -242,7 +302,10 @@ def check(run, M, tier):
                 st.env["__rf_sample__"] = val   # the hard pulse emitted for this step
                 return
             return SimVN.assign(self, tgt, val, st, node)
-    outs = [o for o in PeelVN(M, f, real={lv}).run(stm, State(env)) if o.status == "live"]
+    # the loop body is followed path by path (`if ii > 0: peel` or `if ii == 0: break ... peel`); the peel paths are those on which the
+    # coefficient vectors change
+    outs = [o for o in PeelVN(M, f, real={lv}).run(stm, State(env)) if o.status in ("live", "continue")
+            and isinstance(o.env.get(pa), T.Poly) and o.env.get(pa) != T.sym("a")]
     ok_any = False
     for o in outs:
         try:
